@@ -130,6 +130,7 @@ class C11(Harness):
             ctx.assume(hs[-1] <= 2)
             ctx.assume(hs[0] <= 0)
             inp["fh"] = [int(h) for h in hs]
+            inp["failed_before"] = bool(ctx.fresh_bool("failed_before"))  # an earlier in-sample request that the forecaster refuses
         elif kind == "poly":
             ctx.assume(n >= cell["degree"] + 1)
             h = ctx.fresh_int("h")
@@ -137,6 +138,10 @@ class C11(Harness):
             h2 = ctx.fresh_int("h2")
             ctx.assume((h2 > h) & (h2 <= 4))
             inp["fh"] = [int(h), int(h2)]
+            # later observations taken in without re-estimating: the fitted polynomial stays, the cutoff moves
+            nb = ctx.fresh_int("nb")
+            ctx.assume((nb >= 0) & (nb <= 2))
+            inp["u"] = fresh_reals(ctx, "u", int(nb))
         elif kind == "sm":
             hs = fresh_ints(ctx, "h", 2)
             increasing(ctx, hs, lo=-(nn - 1))
@@ -171,6 +176,16 @@ class C11(Harness):
                     pred = f.predict()
                 else:
                     f.fit(y)
+                    if inp.get("failed_before"):
+                        # in-sample forecasts with exogenous data are not supported: the request is refused part-way
+                        # through the moving-cutoff loop; the caller carries on with a supported request
+                        n0, s00 = inp["n"], inp["s0"]
+                        Xf = pd.DataFrame({"x": [0.0] * (n0 + 2)}, index=pd.RangeIndex(s00, s00 + n0 + 2))
+                        try:
+                            f.predict(np.array([0, 1]), X=Xf)
+                            inp_refused = False
+                        except NotImplementedError:
+                            inp_refused = True
                     pred = f.predict(fh)
             except ValueError:
                 return {"rejected": True}
@@ -179,6 +194,10 @@ class C11(Harness):
             PF = W.load(TREND).PolynomialTrendForecaster
             f = PF(degree=cell["degree"], with_intercept=cell["icpt"])
             f.fit(y)
+            if inp["u"]:
+                n0 = inp["n"]
+                idx_u = pd.RangeIndex(inp["s0"] + n0, inp["s0"] + n0 + len(inp["u"])) if inp["range_index"] else pd.Index([inp["s0"] + n0 + i for i in range(len(inp["u"]))])
+                f.update(pd.Series(inp["u"], index=idx_u), update_params=False)
             pred = f.predict(fh)
             return {"rejected": False, "index": L(pred.index), "values": L(pred.values), "cutoff": S(f.cutoff)}
         if kind == "sm":
@@ -237,7 +256,8 @@ class C11(Harness):
     def oracle(self, P, inp, out, cell):
         kind = cell["kind"]
         n, s0, y, fh = inp["n"], inp["s0"], inp["y"], inp["fh"]
-        c = s0 + n - 1
+        nbp = len(inp.get("u") or []) if kind == "poly" else 0
+        c = s0 + n - 1 + nbp
         if kind == "smopt":
             spec = SM_OPTIONS[cell["which"]]
             opts = dict(zip(spec["ctor"], inp["tok"]))
@@ -314,7 +334,7 @@ class C11(Harness):
         elif kind == "poly":
             deg, icpt = cell["degree"], cell["icpt"]
             basis = list(range(0 if icpt else 1, deg + 1))
-            ts = [n - 1 + h for h in fh]
+            ts = [n - 1 + nbp + h for h in fh]  # zero-based time of the requested points, counted from the first training point
             if P.sym:
                 ctx = P.ctx
                 b = {d: ctx.fresh_real("beta%d" % d) for d in basis}
